@@ -292,6 +292,12 @@ def _gen_str_regex(r, k):
             continue
         s = {"t": "str", "regex": {"pattern": pat, "ast": ast}, "order": ["regex"]}
         if r.random() < k.p_value * 0.5:
+            # declaration and validation *search* for the pattern: a pinned value only has to contain a
+            # match, so where no anchor forbids it the match sits behind a prefix / before a suffix
+            if ast["pre"] is None and r.random() < 0.4:
+                w = r.choice(("order-", " ", "x", "\n", "A1_")) + w
+            if ast["post"] is None and r.random() < 0.4:
+                w = w + r.choice(("-tail", " ", "y", "\n", "9"))
             s["value"] = w
             s["order"] = ["value", "regex"]
         elif r.random() < 0.05:
